@@ -18,7 +18,8 @@
    request sizes are not part of the LTS: into how many chunks a consumed request is split (max_size) and whether
    the last chunk is kept as the current batch are the nondeterministic parameters of [LAbsorb] (so the theorems
    hold for every batching policy and every max_size); back-off durations are not modelled: the back-off timer
-   may fire at any time ([LRetryTimer]), also after stop (the Go select is random when both are ready). *)
+   may fire at any time ([LRetryTimer]), also after stop (the Go select is random when both are ready); the code
+   then re-checks stopCh, and so does [LRetryTimer]. *)
 From Verif Require Import Common.Base.
 
 Definition id := nat.
@@ -223,15 +224,17 @@ Inductive label :=
 | LSend (i : id)             (* exporter without queue: Send enters the sender chain on the caller's goroutine *)
 | LTake                      (* a consumer's Read returns the head of the queue *)
 | LConsExit                  (* a consumer's Read returns !ok; the goroutine exits (stopWG.Done) *)
-| LAbsorb (k n : nat) (keep : bool)
+| LAbsorb (k n : nat) (keep first : bool)
                              (* defaultBatcher.Consume critical section: MergeSplit(currentBatch, req) yields n >= 1
-                                chunks, the first one = currentBatch + the beginning of req, the others parts of req;
+                                chunks, the first one = currentBatch + the beginning of req (first = true) or currentBatch
+                                alone when nothing of req fitted beside it (first = false: then req's Done is not
+                                attached to that chunk and its refcount is n - 1), the others parts of req;
                                 all are flushed (one after the other, by this consumer) except that the last one is
                                 kept as the new currentBatch when keep (smaller than min_size) *)
 | LSpawnC (k : nat)          (* flush(): the consumer obtains a worker and starts the flush goroutine for its next chunk *)
 | LBegin (k : nat)           (* the export function is called for work k *)
 | LEnd (k : nat) (o : outcome) (* ... and returns *)
-| LRetryTimer (k : nat)      (* back-off select: timer branch *)
+| LRetryTimer (k : nat)      (* back-off select: timer branch, then the nested select on stopCh *)
 | LRetryStop (k : nat)       (* back-off select: stopCh branch -> shutdown error *)
 | LRetryGiveUp (k : nat)     (* max_elapsed_time / deadline: "no more retries left" *)
 | LDone (k : nat)            (* the work's result is reported: refCountDone / queue onDone for every request whose last
@@ -296,12 +299,15 @@ Definition step (c : cfg) (s : state) (l : label) : option state :=
                then Some (set_idle n (set_exited (S (exited s)) s)) else None
       | 0 => None
       end
-  | LAbsorb k n keep =>
+  | LAbsorb k n keep first =>
       match nth_error (holding s) k, n with
       | Some i, S m =>
           if Nat.ltb (c_maxparts c) n then None else
-          let c1 := current s ++ [i] in
-          let s1 := set_nparts (repeat i (S m) ++ nparts s) (set_holding (remove_nth k (holding s)) s) in
+          (* the first chunk can be without a part of the request only if there is a current batch and a further chunk *)
+          if negb first && (Nat.eqb m 0 || negb (nonempty (current s))) then None else
+          let c1 := if first then current s ++ [i] else current s in
+          let s1 := set_nparts (repeat i (if first then S m else m) ++ nparts s)
+                               (set_holding (remove_nth k (holding s)) s) in
           Some (if keep then
                   match m with
                   | 0 => set_current c1 (set_idle (S (idle s1)) s1)
@@ -346,7 +352,10 @@ Definition step (c : cfg) (s : state) (l : label) : option state :=
   | LRetryTimer k =>
       match nth_error (works s) k with
       | Some w => match w_st w with
-                  | SBackoff => Some (set_works (upd_nth k (set_st SReady) (works s)) s)
+                  | SBackoff =>
+                      (* the timer branch re-checks stopCh before the next attempt (zero or elapsed delay: timer and
+                         stop channel can be ready together and select picks at random) *)
+                      Some (set_works (upd_nth k (set_st (if rstop s then SDone RShutdown else SReady)) (works s)) s)
                   | _ => None
                   end
       | None => None
@@ -471,6 +480,16 @@ Definition live (s : state) : nat :=
   idle s + length (holding s) + length (cflush s) + length (works s)
   + (if timer_dead (timer s) then 0 else 1).
 
+(* the thread structure: which goroutines created by the exporter helper are alive in s, by creation site —
+   consumers (asyncQueue.Start), flush goroutines (defaultBatcher.flush), the flush timer goroutine
+   (startTimeBasedFlushingGoroutine), anything else (none) *)
+Definition n_cons_alive (s : state) : nat :=
+  idle s + length (holding s) + length (cflush s)
+  + length (filter (fun w => match w_own w with OCons => true | _ => false end) (works s)).
+Definition n_fly (s : state) : nat := length (filter is_fly (works s)).
+Definition n_timer (s : state) : nat := if timer_dead (timer s) then 0 else 1.
+Definition census (s : state) : list nat := [n_cons_alive s; n_fly s; n_timer s; 0].
+
 (* ======== deterministic scheduler used by the correspondence run ==============================
    The Go harness gates the export function and performs one ACTION at a time, waiting for quiescence
    (every goroutine blocked) after each.  [exec] replays that: apply the action's label, then run the
@@ -478,13 +497,16 @@ Definition live (s : state) : nat :=
    is a run of the LTS above. *)
 Record hcfg := mkH {
   h_cfg : cfg;
-  h_mode : nat;      (* retry: 0 off | 1 long back-off (never elapses) | 2 short back-off | 3 gives up at once *)
+  h_mode : nat;      (* retry: 0 off | 1 long back-off (never elapses) | 2 short back-off | 3 gives up at once
+                        | 4 zero back-off (timer and stop channel ready together after stop) *)
   h_min : nat;       (* batch min_size in items *)
   h_max : nat;       (* batch max_size in items (0 = none) *)
   h_wait : bool;     (* wait_for_result: Offer returns (with the export's result) only when Done is called *)
   h_fsize : bool;    (* storage fault: the queue-size snapshot written by persistentQueue.Shutdown fails
                         (only written when the queue is not sized by requests) *)
-  h_fclose : bool }. (* storage fault: client.Close fails *)
+  h_fclose : bool;   (* storage fault: client.Close fails *)
+  h_nofill : bool }. (* the request type's MergeSplit does not top up the current batch when the merged size exceeds
+                        max_size: the first result is the current batch alone *)
 
 (* does persistentQueue.Shutdown return an error in state s?  backupQueueSize fails, or the client is closed
    right there (last reference) and Close fails *)
@@ -507,7 +529,8 @@ Inductive action := AOffer (i : id) (sz : nat) | ARelease (i : id) (o : outcome)
 Definition event := (nat * list id)%type.
 (* kinds: 0 export begins (ids) | 1 export ends (ids) | 2 Shutdown returned (ids = [1] when it returned an error)
           3 wrapped exporter shut down | 4 offer accepted | 5 offer refused | 6 storage client closed
-          8 Send of an exporter without queue returned: [id; 0 ok | 1 error | 2 shutdown error] *)
+          8 Send of an exporter without queue returned: [id; 0 ok | 1 error | 2 shutdown error]
+          9 (last of every phase) census of the helper goroutines at quiescence: [consumers; flush; timer; other] *)
 
 (* sizes: items of every offered request; the pseudo-entry with key 0 is the size of the current batch
    (needed because the current batch may hold only the last chunk of a split request) *)
@@ -538,16 +561,24 @@ Definition sort_ev (l : list event) : list event := fold_right insert_ev [] l.
 (* defaultBatcher.Consume + the harness's MergeSplit (chunks of max_size items, in order): the current batch
    has cs items (< min_size <= max_size), the request sz: total = cs + sz items are cut into n chunks of
    max_size, the last one has rem items and is kept iff rem < min_size.  Every chunk holds a part of the request. *)
-Definition absorb_params (hc : hcfg) (sizes : list (id * nat)) (s : state) (i : id) : nat * bool * nat :=
+Definition absorb_params (hc : hcfg) (sizes : list (id * nat)) (s : state) (i : id) : nat * bool * bool * nat :=
   let cs := if nonempty (current s) then size_of sizes 0 else 0 in
-  let total := cs + size_of sizes i in
+  let sz := size_of sizes i in
+  let total := cs + sz in
   match h_max hc with
-  | 0 => let keep := Nat.ltb total (h_min hc) in (1, keep, if keep then total else 0)
+  | 0 => let keep := Nat.ltb total (h_min hc) in (1, keep, true, if keep then total else 0)
   | S _ as mx =>
+      if h_nofill hc && nonempty (current s) && Nat.ltb mx total then
+        (* first result = the current batch alone; the request is cut into chunks of max_size on its own *)
+        let n' := (sz + mx - 1) / mx in
+        let rem := sz - (n' - 1) * mx in
+        let keep := Nat.ltb rem (h_min hc) in
+        (S n', keep, false, if keep then rem else 0)
+      else
       let n := (total + mx - 1) / mx in
       let rem := total - (n - 1) * mx in
       let keep := Nat.ltb rem (h_min hc) in
-      (n, keep, if keep then rem else 0)
+      (n, keep, true, if keep then rem else 0)
   end.
 
 (* the label the scheduler runs for the first work that can move by itself *)
@@ -562,7 +593,7 @@ Fixpoint work_label (hc : hcfg) (stopped : bool) (k : nat) (ws : list work) : op
       | SBackoff =>
           match h_mode hc with
           | 3 => Some (LRetryGiveUp k)
-          | 2 => Some (if stopped then LRetryStop k else LRetryTimer k)
+          | 2 | 4 => Some (if stopped then LRetryStop k else LRetryTimer k)
           | _ => if stopped then Some (LRetryStop k) else work_label hc stopped (S k) r
           end
       end
@@ -571,7 +602,7 @@ Fixpoint work_label (hc : hcfg) (stopped : bool) (k : nat) (ws : list work) : op
 Definition candidates (hc : hcfg) (sizes : list (id * nat)) (s : state) : list label :=
   (match work_label hc (rstop s) 0 (works s) with Some l => [l] | None => [] end) ++
   (match holding s with
-   | i :: _ => let '(n, keep, _) := absorb_params hc sizes s i in [LAbsorb 0 n keep]
+   | i :: _ => let '(n, keep, first, _) := absorb_params hc sizes s i in [LAbsorb 0 n keep first]
    | [] => []
    end) ++
   [LSpawnC 0; LTimerSpawn; LTake; LConsExit; LTimerExit; LCloseStop; LQueueStop (qstop_err hc s); LNoQueue;
@@ -612,7 +643,7 @@ Definition events_of (hc : hcfg) (l : label) (s s' : state) : list event :=
 (* the scheduler's bookkeeping of the current batch's size *)
 Definition sizes_after (hc : hcfg) (sizes : list (id * nat)) (s : state) (l : label) : list (id * nat) :=
   match l, holding s with
-  | LAbsorb _ _ _, i :: _ => let '(_, _, cs) := absorb_params hc sizes s i in (0, cs) :: sizes
+  | LAbsorb _ _ _ _, i :: _ => let '(_, _, _, cs) := absorb_params hc sizes s i in (0, cs) :: sizes
   | _, _ => sizes
   end.
 
@@ -708,7 +739,7 @@ Definition exec_action (hc : hcfg) (sizes : list (id * nat)) (s : state) (a : ac
   match a with
   | AShutdownRace m e =>
       match exec_race hc sizes s m e with
-      | Some (ls, evs, s2, sz2) => Some (ls, sort_ev evs, s2, sz2)
+      | Some (ls, evs, s2, sz2) => Some (ls, sort_ev evs ++ [(9, census s2)], s2, sz2)
       | None => None
       end
   | _ =>
@@ -717,7 +748,7 @@ Definition exec_action (hc : hcfg) (sizes : list (id * nat)) (s : state) (a : ac
       match step (h_cfg hc) s l with
       | Some s1 =>
           let '(ls, evs, s2, sz2) := settle settle_fuel hc sizes' s1 in
-          Some (l :: ls, sort_ev (events_of hc l s s1 ++ evs), s2, sz2)
+          Some (l :: ls, sort_ev (events_of hc l s s1 ++ evs) ++ [(9, census s2)], s2, sz2)
       | None => None
       end
   | None => None
